@@ -1,5 +1,6 @@
 import OdfModel.GrammarData
 import OdfModel.GrammarExceptions
+import OdfModel.GrammarHist
 open OdfModel OdfModel.GrammarExceptions OdfModel.Grammar OdfModel.GrammarApi OdfModel.GrammarData OdfModel.Generated
 
 /-
@@ -15,6 +16,11 @@ open OdfModel OdfModel.GrammarExceptions OdfModel.Grammar OdfModel.GrammarApi Od
     ctor <chk> <e> <given>    ok | err AttributeError <missing attribute id>
     ctorkw <chk> <e> <given> <kws>   ok | err AttributeError kw <index> | err AttributeError missing <attribute id>
                               (<kws> = indices into the keyword universe, in the order the keywords are passed)
+    hist <p> <ops>            ok <one char per call: . returned, C IllegalChild> <childNodes afterwards: ids, t = text node, - = none>
+                              a history of calls on ONE parent (OdfModel.GrammarHist); <ops> comma separated:
+                              c<id> addElement (checked), u<id> addElement(check_grammar=False), a<id> appendChild,
+                              i<k>:<id> insertBefore(new, childNodes[k]), t addText(check_grammar=False), r<k> removeChild(childNodes[k])
+    histrow <p> <ops> [<xs>]  ok <outcomes>/<childNodes> per child id X of the tables (or of the list <xs>); in <ops> the letter X stands for that id
     factories                 ok <element ids produced by the factories>
     exceptions | known        ok <kind|element|item> …      (the hand-written lists of GrammarExceptions.lean, by name)
     prefixes                  ok <excepted element-name prefixes>
@@ -39,6 +45,35 @@ def b (x : Bool) : String := if x then "1" else "0"
 def errName : Err → String
   | .IllegalChild => "IllegalChild" | .IllegalText => "IllegalText"
   | .AttributeError => "AttributeError" | .ValueError => "ValueError"
+
+def parseOp (s : String) : Option GrammarHist.Op :=
+  match s.toList with
+  | 'c' :: r => (String.ofList r).toNat?.map (GrammarHist.Op.add true)
+  | 'u' :: r => (String.ofList r).toNat?.map (GrammarHist.Op.add false)
+  | 'a' :: r => (String.ofList r).toNat?.map GrammarHist.Op.append
+  | 'r' :: r => (String.ofList r).toNat?.map GrammarHist.Op.remove
+  | ['t'] => some GrammarHist.Op.text
+  | 'i' :: r => match (String.ofList r).splitOn ":" with
+      | [k, c] => match k.toNat?, c.toNat? with
+          | some k, some c => some (GrammarHist.Op.insert k c)
+          | _, _ => none
+      | _ => none
+  | _ => none
+
+def showKids (l : List GrammarHist.Kid) : String :=
+  if l.isEmpty then "-" else String.intercalate "," (l.map fun k => match k with | .elem q => toString q | .text => "t")
+
+def showHist (p : Nat) (ops : List GrammarHist.Op) (sep : String) : String :=
+  let r := GrammarHist.run T ⟨p, []⟩ ops
+  String.ofList (r.1.map fun o => match o with | none => '.' | some _ => 'C') ++ sep ++ showKids r.2.kids
+
+def histRow (p ops : String) (xs : Option (List Nat)) : String :=
+  match p.toNat? with
+  | some p => "ok " ++ String.intercalate " " ((xs.getD (List.range GrammarTables.nElems)).map fun x =>
+      match ((ops.replace "X" (toString x)).splitOn ",").mapM parseOp with
+      | some ops => showHist p ops "/"
+      | none => "bad")
+  | none => "err bad-arg"
 
 def handle (line : String) : String :=
   match line.trimAscii.toString.splitOn " " with
@@ -79,6 +114,11 @@ def handle (line : String) : String :=
           | .error (.refusedKeyword kw) => s!"err AttributeError kw {GrammarNames.kwName.idxOf kw}"
           | .error (.missingRequired r) => s!"err AttributeError missing {r}")
       | _, _, _, _ => "err bad-arg"
+  | ["hist", p, ops] => match p.toNat?, (ops.splitOn ",").mapM parseOp with
+      | some p, some ops => "ok " ++ showHist p ops " "
+      | _, _ => "err bad-arg"
+  | ["histrow", p, ops] => histRow p ops none
+  | ["histrow", p, ops, xs] => histRow p ops (parseList xs)
   | ["factories"] => "ok " ++ showList GrammarFactories.factoryQnames
   | ["exceptions"] => showRows Exceptions
   | ["known"] => showRows KnownFindings
